@@ -156,6 +156,10 @@ class TlSchemas:
                         value = value.encode()  # string has the same framing as bytes
                     if isinstance(value, dict) and '@type' in value:
                         value = self.serialize(schema=self.get_by_name(value['@type']), data=value, boxed=True)
+                    if isinstance(value, list):
+                        # several boxed objects in one bytes field: what deserialize() returns for it (was silently written as nothing)
+                        value = b''.join(self.serialize(schema=self.get_by_name(v['@type']), data=v, boxed=True)
+                                         if isinstance(v, dict) else bytes(v) for v in value)
                     if isinstance(value, bytes):
                         temp = b''
                         bytes_len = len(value)
